@@ -360,6 +360,36 @@ _MORE5 = {
 for _k, _v in _MORE5.items():
     CHECKS[_k]['text'] += _v
 
+_MORE6 = {
+    'C01': ' Added from seed batch 13: the thread restored and the path followed by choose_choice_index come from a choice '
+           'of the offered list (Story::get_current_choices), not of the raw per-flow list.',
+    'C03': ' Added from seed batch 13: the functions that draw random numbers touch, of the Story object, only fields with a '
+           'settled class (table shared with C17): nothing derived from the seed is kept where load / reset do not replace it.',
+    'C06': ' Added from seed batch 13: every recursive call of an AST walker (a call-graph cycle without a depth bound) is '
+           'handed a part of the caller\'s own argument, never a value looked up in a table.',
+    'C07': ' Added from seed batch 13: integer / and % truncate: no Euclidean or flooring division / remainder in '
+           'NativeFunctionCall or anywhere in the compiler; divide_op and mod_op use the truncating operations.',
+    'C09': ' Added from seed batch 13: the first change of the story in continue_internal is reached only with can_continue() '
+           'known true (when no time-limited continue is in progress); Story::can_continue is StoryState::can_continue, which '
+           'reads the pointer and the pending errors.',
+    'C10': ' Added from seed batch 13: the write effects of switching to, back from and removing a flow (through every '
+           'callee) stay inside a tabled set of fields - the evaluation stack, diverted pointer, globals, counts, seeds and '
+           'messages are not touched.',
+    'C11': ' Added with seed batch 13: every path from complete_variable_observation to a return of continue_internal, the '
+           'error returns included, enters the delivery of the names it handed over (a genuine defect of the unchanged tree, '
+           'fixed in 9515071).',
+    'C14': ' Added from seed batch 13: the only raw characters the streaming tokenizer refuses in a string are those below '
+           'U+0020 (no character-class predicate decides an error exit of read_string).',
+    'C18': ' Added from seed batch 13: no function of the runtime takes a value out of ownership (mem::forget, ManuallyDrop, '
+           'leak, into_raw, increment_strong_count).',
+    'C19': ' Added from seed batch 13: the index Object::get_path writes for an unnamed child is its position in the whole of '
+           'Container::content (position() over it, or a remembered enumerate() with no selecting adaptor in between).',
+    'C20': ' Added from seed batch 13: a divert typed at the prompt is handed to choose_path_string with the call stack reset '
+           'and no arguments, as the library is driven.',
+}
+for _k, _v in _MORE6.items():
+    CHECKS[_k]['text'] += _v
+
 NOT_APPLICABLE = {
     'C05': 'agreement with the reference compiler on the corpus is a relation between two outputs over 121 inputs and '
            'all choice paths; no clause of it is visible in the shape of the code, deciding it means running compiler and runtime',
